@@ -115,6 +115,15 @@ func (w *world) hold(a *act) {
 func (w *world) release(a *act, rel func()) {
 	c := w.c
 	w.leave(a)
+	if c.S.FaultP(120) {
+		// fault: the release function is called from two goroutines at the same time
+		c.S.Count("fault:double-release-concurrent")
+		c.Pub()
+		c.S.GoNamed("releaser2", func() {
+			c.Sub()
+			rel()
+		})
+	}
 	rel()
 	// fault: repeated release, now and/or later, possibly from another task
 	switch c.S.Fault(6) {
